@@ -150,6 +150,11 @@ def gen(ctx):
                 sets.insert(rng.randrange(len(sets) + 1), S(ty, text(rng, rng.choice([1, 5, 33]), ascii_only=(cont == "aiff" and ty in (2, 3)))))
             # the last set of a type wins whatever the order: move nothing, the predicate follows the script
             add("str-all-%s-%d" % (cont, rep), "strings", cont, sets)
+        # the high slots: 22 replacements first, then one value per type (32 calls in all: the table is exactly full)
+        tys = list(M.STR_TYPES)
+        rng.shuffle(tys)
+        add("str-32-calls-%s" % cont, "strings", cont, [S(rng.choice([1, 4, 5]), text(rng, rng.choice([1, 2, 9]), ascii_only=True)) for _ in range(22)] +
+            [S(ty, text(rng, rng.choice([1, 2, 9, 30]), ascii_only=(ty in (2, 3)))) for ty in tys])
         add("str-software-%s" % cont, "strings", cont, [S(3, b""), S(1, b"t")])
         add("str-software2-%s" % cont, "strings", cont, [S(3, b"made with libsndfile-0.0.1 by hand"), S(4, b"a")])
         add("str-software3-%s" % cont, "strings", cont, [S(3, text(rng, 108 if cont != "aiff" else 60, ascii_only=True)), S(4, b"a")])
